@@ -83,6 +83,23 @@ func (c *IndividualCompare) WriteHTMLTo(w io.Writer) (int64, error) {
 	return int64(n), err
 }
 
+// relativesCompareOptions returns the options for comparing the parents or the
+// spouses of the two individuals.
+//
+// Compare keeps its working state in the options (how many individuals are
+// left on each side) and the pages of a diff are written by several goroutines
+// that were all given the same options, so every comparison gets a copy of its
+// own. The copy still shares everything that is behind a pointer, such as the
+// individuals that the main comparison has already matched.
+//
+// The notifier belongs to the main comparison, which has closed it by now.
+func (c *IndividualCompare) relativesCompareOptions() *gedcom.IndividualNodesCompareOptions {
+	options := *c.compareOptions
+	options.Notifier = nil
+
+	return &options
+}
+
 func (c *IndividualCompare) writeHTMLTo(w io.Writer) (int64, error) {
 	left := c.comparison.Left
 	right := c.comparison.Right
@@ -145,7 +162,7 @@ func (c *IndividualCompare) writeHTMLTo(w io.Writer) (int64, error) {
 		}
 	}
 
-	for _, parents := range leftParents.Compare(rightParents, c.compareOptions) {
+	for _, parents := range leftParents.Compare(rightParents, c.relativesCompareOptions()) {
 		var row *DiffRow
 		name := "Parent"
 
@@ -173,7 +190,7 @@ func (c *IndividualCompare) writeHTMLTo(w io.Writer) (int64, error) {
 	// Spouses
 	switch {
 	case !gedcom.IsNil(left) && !gedcom.IsNil(right):
-		for _, spouse := range left.Spouses().Compare(right.Spouses(), c.compareOptions) {
+		for _, spouse := range left.Spouses().Compare(right.Spouses(), c.relativesCompareOptions()) {
 			nodeDiff := &gedcom.NodeDiff{}
 
 			if spouse.Left != nil {
